@@ -699,6 +699,14 @@ fn to_list(ctx: &Context, top: &Number, list: &[&str]) -> Result<Vec<NumberParts
                 ctx, top, first,
             ))));
         }
+        if units
+            .iter()
+            .any(|x| x.value == Numeric::zero() || x.value == Numeric::Float(0.0))
+        {
+            return Err(QueryError::generic(
+                "Division by zero: unit list contains a zero-valued unit".to_string(),
+            ));
+        }
     }
     let mut value = top.value.clone();
     let mut out = vec![];
